@@ -750,12 +750,61 @@ def expected_old(toks):
     return R.expected_stream(conv)
 
 
+def _balanced(toks):
+    depth = 0
+    for t in toks:
+        if t[0] == 'D':
+            depth += -1 if t[1] == 'end' else 1
+            if depth < 0:
+                return False
+    return depth == 0
+
+
+def valid_scan_case(case):
+    """is the case one of the grammar of the scanner oracles (shrinking must not leave it)"""
+    import re
+    check = case.get('check')
+    ok_str = lambda x: isinstance(x, str)
+    if check == 'scanverb':
+        return case.get('lang') in ('newtext', 'oldtext') and ok_str(case.get('text')) and case['text'] != '' and '$' not in case['text']
+    toks = case.get('tokens')
+    if not isinstance(toks, list) or not toks:
+        return False
+    new = check == 'scanprint'
+    prev = None
+    for i, t in enumerate(toks):
+        if not isinstance(t, list) or not t or t[0] not in ('T', 'D', 'C') or not all(ok_str(x) for x in t):
+            return False
+        if t[0] == 'T':
+            if len(t) != 2 or not t[1] or '$' in t[1] or prev == 'T':
+                return False
+            if new and t[1].endswith('\\') and i + 1 < len(toks):
+                return False
+            if not new and not t[1].endswith('\n'):
+                return False
+        elif t[0] == 'D':
+            if len(t) != (3 if new else 4) or t[1] not in R.CT_OPEN + ['end']:
+                return False
+            v = t[2]
+            if v != v.strip() or re.search(r'^\s|\s$', v) or '%}' in v or (not new and ('\n' in v or '\r' in v)):
+                return False
+            if not new and t[3].strip(' \t'):
+                return False
+        else:
+            if len(t) != 2 or (new and '#}' in t[1]) or (not new and ('\n' in t[1] or '\r' in t[1])):
+                return False
+        prev = t[0]
+    return _balanced(toks)
+
+
 def scan_oracle(case):
     """the documented constructs mean themselves, on the real code (no model involved: the source is
     the printed form of the tokens, the expectation their nesting)"""
     def bad(what, expected, observed):
         return {'case': case, 'what': what, 'expected': expected, 'observed': observed}
     check = case['check']
+    if not valid_scan_case(case):
+        return None
     if check == 'scanprint':
         toks = case['tokens']
         src = R.print_new([toks])[0]
